@@ -63,6 +63,15 @@ CHECKS = {
         "note": "Trusted: Python ast, E1 resolver, numpy indexing semantics, reference forms from the property statement.",
         "technique": "static analysis: traversal typestate for slim and sub-pixel counters + polynomial-normal-form equality of stored payloads; pass-through / wiring rules on the class layer; normalised comparator structure",
     },
+    "C10": {
+        "text": "Decides, for every mask (holes, several components, unmasked pixels on the outer ring) and odd kernel shape (non-square included): the blurring mask lays footprints range((-K+1)//2,(K+1)//2) per own kernel axis "
+                "around unmasked pixels only, tests each footprint pixel against the bounds of its own array axis on both sides, unmasks only masked pixels, starts fully masked and raises MaskException on exactly the negated in-frame test; "
+                "the edge test returns True iff one of the eight in-array neighbours is masked with every neighbour read bounds-guarded (a sliced variant must clamp its lower bound); the slim index reported for an edge pixel is counted over "
+                "EVERY unmasked pixel of the full mask (traversal typestate), entries recorded iff unmasked and edge, sized by the same predicate; the border test is the four axis-direction walks with counts y, W-x-1, H-y-1, x along the "
+                "pixel's own column/row; the border list is the edge list of the same mask filtered by it in order; native, mask and grid views all derive from the same slim lists. Not decided: nothing numerical - topology clauses reduce to these local definitions.",
+        "note": "Trusted: Python ast, E1 resolver, numpy slicing / np.sum semantics.",
+        "technique": "static analysis: abstract evaluation + normalised guard/bounds comparison; traversal typestate; must-raise; view wiring rule",
+    },
 }
 
 NOT_APPLICABLE = {f"C{n:02d}": PENDING for n in range(1, 21) if f"C{n:02d}" not in CHECKS}
